@@ -111,7 +111,10 @@ ARG_POOL = ["", " ", "%Q", "%", "a", "-1", "0", "5", "99999999999999999999", "\u
             "/a/b.tar.gz", ".hidden", "a.", "AbcDef", "snake_case", "kebab-case", "\u00c4\u00d6", "\u00df", "\u0130", "a\tb", "\r\n", "0x10", "1e3",
             "18446744073709551616", "-0", "+1", " 5 "]
 
-PARAM_SHAPES = ["p%d", "p%d='d'", "+p%d", "+p%d='d'", "*p%d", "*p%d='d'", "$p%d", "p%d=`echo`"]
+# {i} = this parameter's index, {prev} / {next} = its neighbours: defaults may only see earlier parameters and
+# assignments; a default that names itself, a later parameter or nothing at all must be a compile error
+PARAM_SHAPES = ["p{i}", "p{i}='d'", "+p{i}", "+p{i}='d'", "*p{i}", "*p{i}='d'", "$p{i}", "p{i}=`echo`",
+                "p{i}=p{i}", "p{i}=p{prev}", "p{i}=p{next}", "p{i}=g", "p{i}=(p{i} + g)", "+p{i}=p{i}", "*p{i}=p{prev}", "$p{i}=nowhere"]
 
 LINE_SHAPES = ["@", "-", "@-", "-@", "@@", "--", "@ ", "- ", "@\u00e9", "-\u00e9", "\u00e9", "#", "#!", "@#", "{{''}}", "@{{''}}", "{{'@'}}x", "\\", "@\\",
                "echo {{{{", "{{'a'}}{{'b'}}", " x", "@ @x", "#!{{''}}", "#! {{''}}", "#!/bin/sh {{''}}", "x \\\n    y", "@x \\\n    @y", "\u00e9\\\n  \u00e9"]
@@ -341,11 +344,11 @@ def run(report):
     for L in (1, 2, 3):
         all_l = list(itertools.product(PARAM_SHAPES, repeat=L))
         if L == 3 and not thorough:
-            all_l = rng.sample(all_l, 120)
+            all_l = rng.sample(all_l, 200)
         shapes += all_l
     for shape in shapes:
-        params = " ".join(p % i for i, p in enumerate(shape))
-        text = "set shell := [\"%s\", \"-c\"]\nr %s:\n  echo {{p0}}\ncaller: (r 'x')\ncaller2: (r 'x' 'y')\n" % (C.VSH, params)
+        params = " ".join(p.format(i=i, prev=max(i - 1, 0), next=i + 1) for i, p in enumerate(shape))
+        text = "set shell := [\"%s\", \"-c\"]\ng := 'G'\nr %s:\n  echo {{p0}}\ncaller: (r 'x')\ncaller2: (r 'x' 'y')\n" % (C.VSH, params)
         for argv in (["r"], ["r", "1"], ["r", "1", "2"], ["r", "1", "2", "3"], ["caller"], ["caller2"], ["--show", "r"], ["--usage", "r"]):
             cases.append({"kind": "params", "files": {"justfile": text}, "argv": argv})
     n_par = len(cases) - n_cli - n_fn
